@@ -66,6 +66,8 @@ def z_oracle(b, counts, sign, clock_time=None):
     v2 = z3.And(o2 >= 1, o2 <= dates.MAXORD)
     if clock_time is not None:
         r2 = (clock_time[0] * 60 + clock_time[1]) * 60 * 1000000
+        if len(clock_time) > 2:
+            r2 = r2 + clock_time[2] * 1000000 + clock_time[3]
     return z3.simplify(z3.And(v1, v2)), z3.simplify(o2), z3.simplify(r2)
 
 
@@ -83,6 +85,8 @@ def phrase_parts(shape):
             p.append(" ago")
     if shape.get("time"):
         p += [shape.get("tjoin", " at "), ("H", 2), ":", ("M", 2)]
+        if shape.get("time") == "us":
+            p += [":", ("S", 2), ".", ("f", 6)]       # seconds and a six-digit fraction
     return p
 
 
@@ -124,6 +128,9 @@ def h_rel(shape, implicit_tz=None, time_as_period=False):
         if shape.get("time"):
             v["H"], v["M"] = C.field("H", 0, 23), C.field("M", 0, 59)
             ct = (_zi(v["H"]), _zi(v["M"]))
+            if shape.get("time") == "us":
+                v["S"], v["f"] = C.field("S", 0, 59), C.field("f", 0, 999999)
+                ct = ct + (_zi(v["S"]), _zi(v["f"]))
         s = tmpl(parts, v)
         dd = C.api(s, languages=["en"], settings=st)
         wit.update(v)
@@ -204,6 +211,8 @@ def tasks(tier, seed):
     for wd in (words if not quick else [words[(seed + 3 * j) % len(words)] for j in range(4)]):
         add("word:%s" % wd, {"word": wd})
     add("time:days ago at HH:MM", _single("day", "ago", 2, time=True))
+    add("time:days ago at HH:MM:SS.ffffff", dict(_single("day", "ago", 2), time="us"))
+    out[-1]["solver_timeout_ms"] = 150000
     add("time:yesterday at HH:MM", {"word": "yesterday", "time": True})
     add("time:in hours HH:MM:time_as_period", dict(_single("hour", "in", 2, time=True), tjoin=" "), time_as_period=True)
     if not quick:
@@ -254,6 +263,8 @@ def native_oracle(b, counts, sign, clock_time):
         return None
     if clock_time is not None:
         r = r.replace(hour=clock_time[0], minute=clock_time[1], second=0, microsecond=0)
+        if len(clock_time) > 2:
+            r = r.replace(second=clock_time[2], microsecond=clock_time[3])
     return r
 
 
@@ -278,6 +289,8 @@ def native_check(spec):
         sign = 1 if shape["dir"] == "in" else -1
         counts = [(u, w["n%d" % i]) for i, (u, _w, _p) in enumerate(shape["units"])]
     ct = (w["H"], w["M"]) if shape.get("time") else None
+    if shape.get("time") == "us":
+        ct = ct + (w["S"], w["f"])
     exp = native_oracle(b, counts, sign, ct)
     per = expected_period([u for u, _ in counts], bool(shape.get("time")), spec["time_as_period"])
     desc = "parse(%r, settings=%r, clock=%r)" % (spec["call"]["string"], spec["call"]["settings"], spec.get("clock"))
